@@ -8,6 +8,12 @@ META = {
         "note": "Trusted: Lean kernel (axioms propext, Classical.choice, Quot.sound only), the hand-written model's tie to the code is differential (bounded by generator coverage reported in evidence), harness VM in place of ref-fvm, signature/hash/extra-call results as environment inputs. Completeness direction of acceptance (conditions => accept) is not yet a theorem.",
         "technique": "Lean 4 invariant/decision-logic proofs + differential correspondence of model and real actor",
     },
+    "C07": {
+        "text": "Lean 4 theorems over a model of the storage market actor that follows process_deal_update / process_slashed_deal / process_deal_init_timed_out branch by branch: payWindow_closed_form and payments_telescoping (for ANY finite time-ordered schedule of settlement/cron epochs the provider's total credit is price x (clamp e_k - clamp last_updated), independent of k and the intermediate points), payments_path_independent, no_double_pay (successive windows are adjacent), settle_pays_window (a settlement moves exactly the window from client escrow+locked to provider escrow and nothing else), completion_exact, termination_exact + termination_total (provider credited up to the termination epoch, client refunded collateral + price x (end - max(t,start)), provider collateral burnt in full, paid + refunded = total fee), timeout_exact, timeout_only_after_start_settle. The model is tied to the code on every run by differential execution of generated publish/activate/settle/cron/terminate histories on the real market actor (real miner actors as providers) against the compiled model, and an independent oracle checks on the real state that every party's escrow equals deposits - withdrawals + credits - debits - burns in closed form.",
+        "design_ref": "DESIGN.md §7 C06 / C07 / C08",
+        "note": "Trusted: Lean kernel (axioms propext, Classical.choice, Quot.sound only); the hand-written model's tie to the code is differential (bounded by generator coverage reported in evidence); harness VM in place of ref-fvm; signature/bounds/miner-control answers as environment inputs. The schedule theorem is stated on the model's payment function over arbitrary schedules and per transition over arbitrary states; see the evidence notes for what is proved over whole histories.",
+        "technique": "Lean 4 algebraic + per-transition exactness proofs + differential correspondence of model and real actor + closed-form escrow ledger oracle",
+    },
 }
 
 ALL = ["C%02d" % i for i in range(1, 21)]
